@@ -34,7 +34,7 @@ class Engine:
     rule = (
         "one run = one generated inventory (v1/v2, optionally line/header-mutated) loaded under a one-chunk "
         "baseline, Sphinx's loader, and a seeded set of read schedules (cut-sets: whole, fixed k, random, "
-        "boundary-seeking, byte-at-a-time prefix; complete two-chunk and all-1-byte sweeps for small files), "
+        "boundary-seeking, byte-at-a-time prefix; complete two-chunk, three-chunk (files <= 130 bytes) and all-1-byte sweeps for small files), "
         "a randomised _BUFSIZE knob, via load()/fetch_inventory(path)/fetch_inventory(url), plus injected read "
         "errors, premature EOF and flipped bytes; an evaluation is one load() execution under one schedule/fault; "
         "non-trivial = the stream was cut at least once or a fault was delivered; distinct = distinct "
@@ -86,6 +86,13 @@ class Engine:
             for c in range(1, size):
                 cases.append({"kind": "chunk", "policy": "two_chunk_sweep", "cuts": [c],
                               "bufsize": DEFAULT_BUFSIZE, "via": "load"})
+        if 2 < size <= 130 and k.random() < (0.1 if tier == "thorough" else 0.02):
+            # complete sweep of all three-chunk schedules of a very small file: some reader bugs cannot be shown
+            # by any two-piece split (the header's left-over buffer is joined with the second piece)
+            for c1 in range(1, size - 1):
+                for c2 in range(c1 + 1, size):
+                    cases.append({"kind": "chunk", "policy": "three_chunk_sweep", "cuts": [c1, c2],
+                                  "bufsize": DEFAULT_BUFSIZE, "via": "load"})
         if 1 < size <= 1200 and k.random() < 0.3:
             cases.append({"kind": "chunk", "policy": "all_one_byte", "cuts": {"range": [1, size, 1]},
                           "bufsize": k.choice([1, 8, DEFAULT_BUFSIZE]), "via": "load"})
@@ -190,7 +197,7 @@ class Engine:
                     myst=base["outcome"][1:], sphinx_entries=sum(len(v) for v in ref[1].values()))
 
         # ---- schedules and faults
-        sweeps = {"two_chunk_sweep": 0, "all_one_byte": 0}
+        sweeps = {"two_chunk_sweep": 0, "three_chunk_sweep": 0, "all_one_byte": 0}
         for ci, case in enumerate(plan["cases"]):
             if violations:
                 break
